@@ -27,7 +27,20 @@ def cases(tier, seed):
         rng = core.stream(s, "gen")
         kn = storeops.gen_knobs(rng, backends=("fs+cache",))
         kn["hold"] = rng.random() < 0.25
-        out.append({"seed": s, "knobs": kn, "ops": storeops.gen_ops(rng, rng.randrange(5, 61), kn, "c06")})
+        ops = storeops.gen_ops(rng, rng.randrange(5, 61), kn, "c06")
+        budget = kn["cache_kib"] * 1024
+        if budget <= 70000 and rng.random() < 0.2:
+            # recency must survive a forget_function of ANOTHER function: two entries, the older-written one read last, a third
+            # function's entry forgotten, then insertions that need room - the entry read last must outlive the other
+            sc = storeops.size_classes(budget)
+            fa, fb, fc = rng.sample(["fa#1", "fb#2", "fab#1", "fa#10"], 3)
+            u = 900000 + i * 10
+            mk = lambda f, x, cls, k: ["memoize", f, x, {"t": "str", "n": sc[cls], "u": u + k, "cls": cls}, None]
+            script = [mk(fa, 1, "third", 1), mk(fb, 1, "third", 2), mk(fc, 1, "tiny", 3), ["read", fa, 1], ["forget_fn", fc],
+                      mk(fc, 2, "third", 4), mk(fc, 3, "third", 5), ["read", fa, 1]]
+            k = rng.randrange(len(ops) + 1)
+            ops[k:k] = script
+        out.append({"seed": s, "knobs": kn, "ops": ops})
     return out
 
 
